@@ -510,6 +510,48 @@ let cmd_mparse args =
      | None -> emit "err")
   | _ -> failwith "parse: bad arguments"
 
+(* psp <texthex>: the spanned model parser; printed as the hook prints the real parser's statements with spans *)
+let span_str ((s, e) : nat * nat) : Stdlib.String.t = Printf.sprintf " @%d:%d" (int_of_nat s) (int_of_nat e)
+
+let rec sexp_of_sexpr (e : sexpr) : Stdlib.String.t =
+  match e with
+  | SEConst (sp, v) -> Printf.sprintf "(c 0x%s %s%s)" (hex_of_n v.bits) (width_str v.wd) (span_str sp)
+  | SEWire (sp, n) -> "(w " ^ ostr n ^ span_str sp ^ ")"
+  | SEBin (sp, op, l, r) -> Printf.sprintf "(b %s %s %s%s)" (binop_name op) (sexp_of_sexpr l) (sexp_of_sexpr r) (span_str sp)
+  | SEUn (sp, op, e1) -> Printf.sprintf "(u %s %s%s)" (unop_name op) (sexp_of_sexpr e1) (span_str sp)
+  | SEMux (sp, a) -> "(m" ^ sexp_of_sarms a ^ span_str sp ^ ")"
+  | SESlice (sp, e1, lo, hi) -> Printf.sprintf "(s %s %d %d%s)" (sexp_of_sexpr e1) (int_of_n lo) (int_of_n hi) (span_str sp)
+  | SECat (sp, l, r) -> Printf.sprintf "(cat %s %s%s)" (sexp_of_sexpr l) (sexp_of_sexpr r) (span_str sp)
+  | SEIn (sp, e1, items) -> "(in " ^ sexp_of_sexpr e1 ^ sexp_of_sitems items ^ span_str sp ^ ")"
+and sexp_of_sarms = function
+  | SANil -> ""
+  | SACons (c, v, rest) -> Printf.sprintf " (arm %s %s)" (sexp_of_sexpr c) (sexp_of_sexpr v) ^ sexp_of_sarms rest
+and sexp_of_sitems = function
+  | SXNil -> ""
+  | SXCons (e, rest) -> " " ^ sexp_of_sexpr e ^ sexp_of_sitems rest
+
+let sexp_of_sstmt (s : sstmt) : Stdlib.String.t =
+  match s with
+  | SSConst decls ->
+    "(const" ^ Stdlib.String.concat "" (List.map (fun ((n, nsp), e) -> Printf.sprintf " (def %s%s %s)" (ostr n) (span_str nsp) (sexp_of_sexpr e)) decls) ^ ")"
+  | SSWire decls ->
+    "(wire" ^ Stdlib.String.concat "" (List.map (fun ((n, w), sp) -> Printf.sprintf " (decl %s %s%s)" (ostr n) (width_str w) (span_str sp)) decls) ^ ")"
+  | SSAssign assigns ->
+    "(assign" ^ Stdlib.String.concat "" (List.map (fun ((names, e), sp) ->
+        Printf.sprintf " (set (%s) %s%s)" (Stdlib.String.concat " " (List.map (fun (n, nsp) -> ostr n ^ span_str nsp) names)) (sexp_of_sexpr e) (span_str sp)) assigns) ^ ")"
+  | SSBank (name, nsp, regs, sp) ->
+    "(register " ^ ostr name ^ span_str nsp ^ Stdlib.String.concat "" (List.map (fun (((n, w), e), rsp) ->
+        Printf.sprintf " (reg %s %s %s%s)" (ostr n) (width_str w) (sexp_of_sexpr e) (span_str rsp)) regs) ^ span_str sp ^ ")"
+
+let cmd_mpsp args =
+  match args with
+  | h :: _ ->
+    let tiers = match gen_tiers with Some t -> t | None -> [] in
+    (match parse_text_sp test_uclass tiers (bytes_of (hex_decode h)) with
+     | Some stmts -> List.iter (fun s -> emit ("stmt " ^ sexp_of_sstmt s)) stmts
+     | None -> emit "err")
+  | _ -> failwith "psp: bad arguments"
+
 let dispatch cmd args =
   match cmd with
   | "dis" -> cmd_dis args
@@ -521,6 +563,7 @@ let dispatch cmd args =
   | "yo" -> cmd_myo args
   | "mbuild" -> cmd_mbuild args
   | "parse" -> cmd_mparse args
+  | "psp" -> cmd_mpsp args
   | "lex" -> cmd_mlex args
   | "mcli" -> cmd_mcli args
   | "margv" -> cmd_margv args
